@@ -439,6 +439,39 @@ func concHistory(args []string) error {
 		observe2("parser(CaseInsensitive).ParseString select b", "ParseString SELECT a", fresh, got)
 		fmt.Printf("%s\tafter parsing `SELECT a`, `select b` gives %q; on a fresh parser %q\n", status, got, fresh)
 	}
+	// an option VALUE used in several Build calls (next to other options of the same kind) configures each parser as if it had
+	// been made for that Build alone
+	{
+		type ciGrammar struct {
+			K string   `@"select":Keyword`
+			F string   `@"from":Ident`
+			N []string `@Ident*`
+		}
+		lx := lexer.MustSimple([]lexer.SimpleRule{{Name: "WS", Pattern: `\s+`}, {Name: "Keyword", Pattern: `(?i)select\b`}, {Name: "Ident", Pattern: `[a-zA-Z]+`}})
+		shared := participle.CaseInsensitive("Keyword")
+		elide := participle.Elide("WS")
+		call := func(p *participle.Parser[ciGrammar], in string) string {
+			v, err := p.ParseString("", in)
+			if err != nil {
+				return "err " + err.Error()
+			}
+			return fmt.Sprintf("%+v", *v)
+		}
+		_, _ = participle.Build[ciGrammar](participle.Lexer(lx), shared, participle.CaseInsensitive("Ident"), elide)
+		later, err1 := participle.Build[ciGrammar](participle.Lexer(lx), shared, elide)
+		fresh, err2 := participle.Build[ciGrammar](participle.Lexer(lx), participle.CaseInsensitive("Keyword"), participle.Elide("WS"))
+		if err1 == nil && err2 == nil {
+			for _, in := range []string{"SELECT FROM x", "select from x", "Select From"} {
+				got, want := call(later, in), call(fresh, in)
+				status := "ok"
+				if got != want {
+					status = "MISMATCH"
+				}
+				observe2("parser built from a shared CaseInsensitive option value .ParseString "+in, "an earlier Build used the same option value next to CaseInsensitive(Ident)", want, got)
+				fmt.Printf("%s\ta parser built from an option value an earlier Build had used gives %q on %q; a parser built from fresh options %q\n", status, got, in, want)
+			}
+		}
+	}
 	// an error returned earlier keeps its text and position when the parser fails again elsewhere
 	{
 		p := participle.MustBuild[strGrammar]()
